@@ -415,7 +415,11 @@ func (g *G) classMember(depth int, iface bool) *Node {
 		for i, n := 0, g.R.Range(1, 2); i < n; i++ {
 			nm := g.identifier(g.ident())
 			if g.php7() && g.R.Chance(1, 5) {
-				nm = g.identifier(g.R.Pick("LIST", "print", "new", "function"))
+				w := g.reservedWord(true)
+				for strings.EqualFold(w, "class") {
+					w = g.reservedWord(true) // a class constant must not be called 'class'
+				}
+				nm = g.identifier(w)
 			}
 			v := g.constExpr(depth + 1)
 			cs = append(cs, &Node{Kind: "StmtConstant", Kids: []Kid{one("Name", nm), one("Expr", v)}, Parts: parts(nm, t("="), v)})
@@ -496,7 +500,7 @@ func (g *G) classMember(depth int, iface bool) *Node {
 	}
 	nm := g.identifier(g.R.Pick(g.ident(), g.ident(), "__construct"))
 	if g.php7() && g.R.Chance(1, 5) {
-		nm = g.identifier(g.R.Pick("list", "class", "array", "static", "function", "print", "new"))
+		nm = g.identifier(g.reservedWord(true))
 	}
 	ps, pp := g.params(depth)
 	n.Kids = append(n.Kids, one("Name", nm), list("Params", ps))
@@ -532,6 +536,9 @@ func (g *G) traitUse(depth int) *Node {
 	var ads []*Node
 	for i, k := 0, g.R.Intn(4); i < k; i++ {
 		meth := g.identifier(g.ident())
+		if g.php7() && g.R.Chance(1, 5) {
+			meth = g.identifier(g.reservedWord(true))
+		}
 		var ref []interface{}
 		a := &Node{}
 		if g.R.Bool() {
@@ -560,6 +567,10 @@ func (g *G) traitUse(depth int) *Node {
 			}
 			if !hasMod || g.R.Bool() {
 				al := g.identifier(g.ident())
+				if g.php7() && g.R.Chance(1, 4) {
+					// without a modifier only the non-modifier reserved words can be an alias; with one, any identifier
+					al = g.identifier(g.reservedWord(hasMod))
+				}
 				a.Kids = append(a.Kids, one("Alias", al))
 				a.Parts = append(a.Parts, al)
 			}
